@@ -18,10 +18,10 @@ ID = "C14"
 LEAN_MODULES = ["Barril.Props.C14"]
 DRIVERS = ["drv_reg"]
 DRIVER_EXE = "drv_reg"
-RULE = ("registration histories on a private UnitDatabase(): bounded-exhaustive over a fixed alphabet of 28 calls "
+RULE = ("registration histories on a private UnitDatabase(): bounded-exhaustive over a fixed alphabet of 29 calls "
         "(AddUnitBase/AddUnit/AddCategory over 3 quantity types x 5 symbols x 4 categories incl. duplicates, a second "
         "base, foreign symbols, legacy spellings, override, from_category with partial overrides, limits, every "
-        "rejected-argument class) to depth 3 (quick) / 4 (thorough, last call from a 14-call sub-alphabet), random "
+        "rejected-argument class) to depth 3 (quick) / 4 (thorough, last call from a 15-call sub-alphabet), random "
         "histories to depth 40 with arbitrary argument combinations; after the history the complete registry and ~45 "
         "getter/construction queries are compared; distinct = distinct history; non-trivial = at least one accepted "
         "and (depth>1) one rejected or overriding call")
@@ -80,9 +80,10 @@ ALPHABET = [
     _cat("time", "length"),
     _cat("length", "time", override=True),
     _cat("depth", "length", default_unit="lbmole", max_value=3.0),
+    _cat("depth", "length", min_value=5.0),
 ]
 # last call of the depth-4 histories of the thorough tier
-SUB = [0, 2, 4, 6, 10, 11, 12, 13, 14, 15, 16, 19, 25, 27]
+SUB = [0, 2, 4, 6, 10, 11, 12, 13, 14, 15, 16, 19, 25, 27, 28]
 
 
 def _queries(types=TYPES, syms=SYMS, cats=CATS):
